@@ -202,12 +202,61 @@ int __wrap_pthread_create(pthread_t *t, const pthread_attr_t *a, void *(*fn)(voi
 }
 
 #include <sys/wait.h>
-/* 1 if this process has a child that is still running */
+#include <sys/syscall.h>
+#include <fcntl.h>
+/* raw system calls: the harness's own look at /proc must not pass through the libc wrappers that number and
+ * classify janet's calls */
+static int raw_read_file(const char *path, char *buf, int cap) {
+    int fd = (int) syscall(SYS_openat, AT_FDCWD, path, O_RDONLY | O_CLOEXEC);
+    if (fd < 0) return -1;
+    int n = 0, r;
+    while (n < cap - 1 && (r = (int) syscall(SYS_read, fd, buf + n, cap - 1 - n)) > 0) n += r;
+    syscall(SYS_close, fd);
+    buf[n] = 0;
+    return n;
+}
+
+struct vdirent64 { uint64_t d_ino; int64_t d_off; unsigned short d_reclen; unsigned char d_type; char d_name[]; };
+
+/* 1 if this process has a child that is still running (not a zombie). waitid(WNOWAIT) cannot tell: as long as
+ * one un-reaped zombie exists it keeps reporting that one, whatever the other children do. */
 static int running_children(void) {
-    siginfo_t info;
-    memset(&info, 0, sizeof info);
-    if (waitid(P_ALL, 0, &info, WEXITED | WNOHANG | WNOWAIT) != 0) return 0; /* ECHILD: none */
-    return info.si_pid == 0;
+    int dfd = (int) syscall(SYS_openat, AT_FDCWD, "/proc/self/task", O_RDONLY | O_DIRECTORY | O_CLOEXEC);
+    if (dfd < 0) {
+        siginfo_t info;
+        memset(&info, 0, sizeof info);
+        if (waitid(P_ALL, 0, &info, WEXITED | WNOHANG | WNOWAIT) != 0) return 0; /* ECHILD: none */
+        return info.si_pid == 0;
+    }
+    int running = 0;
+    char dbuf[4096];
+    for (;;) {
+        long n = syscall(SYS_getdents64, dfd, dbuf, sizeof dbuf);
+        if (n <= 0) break;
+        for (long off = 0; off < n && !running;) {
+            struct vdirent64 *de = (struct vdirent64 *)(dbuf + off);
+            off += de->d_reclen;
+            if (de->d_name[0] == '.') continue;
+            char path[128], kids[8192];
+            snprintf(path, sizeof path, "/proc/self/task/%s/children", de->d_name);
+            if (raw_read_file(path, kids, sizeof kids) <= 0) continue;
+            char *p = kids;
+            while (*p && !running) {
+                char *end;
+                long pid = strtol(p, &end, 10);
+                if (end == p) break;
+                p = end;
+                char st[512];
+                snprintf(path, sizeof path, "/proc/%ld/stat", pid);
+                if (raw_read_file(path, st, sizeof st) <= 0) continue;     /* gone meanwhile */
+                char *rp = strrchr(st, ')');
+                if (rp && rp[1] == ' ' && rp[2] != 'Z' && rp[2] != 'X') running = 1;
+            }
+        }
+        if (running) break;
+    }
+    syscall(SYS_close, dfd);
+    return running;
 }
 
 int __wrap_epoll_wait(int epfd, struct epoll_event *events, int maxevents, int timeout) {
@@ -220,12 +269,12 @@ int __wrap_epoll_wait(int epfd, struct epoll_event *events, int maxevents, int t
         /* give live threads and running child processes (VERIF_VT_WAIT_MS of real time, default 60 s)
          * the chance to post their results / produce output first */
         /* The real-time patience is proportional to how far virtual time would jump: a short sleep next
-         * to a long-running child costs 20 ms, a 1000 s watchdog deadline waits up to ~50 s. */
+         * to a long-running child costs 50 ms, a 1000 s watchdog deadline waits up to ~50 s. */
         int max_spins = vt_wait_spins;
         if (timer_armed) {
             int64_t dist_ms = (timer_when_ns - __atomic_load_n(&vnow_ns, __ATOMIC_SEQ_CST)) / 1000000;
             int64_t cap_ms = dist_ms / 20;
-            if (cap_ms < 20) cap_ms = 20;
+            if (cap_ms < 50) cap_ms = 50;
             if (cap_ms / 5 < max_spins) max_spins = (int)(cap_ms / 5);
         }
         for (int spins = 0; spins < max_spins && (__atomic_load_n(&live_threads, __ATOMIC_SEQ_CST) > 0 || running_children()); spins++) {
@@ -500,6 +549,21 @@ static Janet v_pid_running(int32_t argc, Janet *argv) {
     return janet_wrap_boolean(rp[2] != 'Z' && rp[2] != 'X');
 }
 
+static Janet v_wait_exec(int32_t argc, Janet *argv) {
+    janet_fixarity(argc, 1);
+    long pid = (long) janet_getinteger(argv, 0);
+    char own[64], other[64], path[64];
+    if (raw_read_file("/proc/self/comm", own, sizeof own) <= 0) return janet_wrap_false();
+    snprintf(path, sizeof path, "/proc/%ld/comm", pid);
+    for (int i = 0; i < 2000; i++) {
+        if (raw_read_file(path, other, sizeof other) <= 0) return janet_wrap_true();   /* already gone */
+        if (strcmp(own, other) != 0) return janet_wrap_true();   /* comm is set after close-on-exec handling */
+        struct timespec ts = {0, 1000000};
+        __real_nanosleep(&ts, NULL);
+    }
+    return janet_wrap_false();
+}
+
 static Janet v_live_threads(int32_t argc, Janet *argv) {
     (void) argv;
     janet_fixarity(argc, 0);
@@ -529,6 +593,9 @@ static const JanetReg verif_cfuns[] = {
     {"verif/real-sleep", v_real_sleep, "(verif/real-sleep ms)\n\nSleep in real time."},
     {"verif/pid-running", v_pid_running, "(verif/pid-running pid)"},
     {"verif/live-threads", v_live_threads, "(verif/live-threads)"},
+    {"verif/wait-exec", v_wait_exec, "(verif/wait-exec pid)\n\nWait (real time, at most 2 s) until the child `pid` has finished its exec: "
+     "posix_spawn returns as soon as the child has a new address space, a moment before the kernel closes the child's "
+     "close-on-exec copies of this process's descriptors. Returns true when the exec was seen to be complete."},
     {NULL, NULL, NULL}
 };
 
